@@ -285,6 +285,9 @@ class FermionicArray(AbelianArray):
 
         if axes is None:
             axes = tuple(range(new.ndim - 1, -1, -1))
+        else:
+            # handle negative axes (the phase calculation needs positions)
+            axes = tuple(ax % new.ndim for ax in axes)
 
         if phase:
             # compute new sector phases
